@@ -19,15 +19,17 @@ import (
 // C46 — COPY and MOVE never destroy their source.
 //
 // Complete enumeration of single COPY/MOVE requests sent through the real
-// Handler.ServeHTTP (httptest recorder) to a freshly built tree, on NewMemFS()
-// and on Dir(fresh temporary directory): source trees x request-target
-// spellings x Destination spellings x destination state x Overwrite x Depth x
-// lock state x Prefix. The file system is read back through the FileSystem
+// Handler.ServeHTTP (httptest recorder) to a freshly built tree, on NewMemFS(),
+// on Dir(fresh temporary directory) and on Dir(the same kind of directory named
+// by a string that is not in filepath.Clean form): file system x source trees x
+// request-target spellings x Destination spellings (equivalent to the source,
+// inside it, an ancestor of it - the root collection -, distinct) x destination
+// state x Overwrite x Depth x lock state x Prefix. The file system is read back through the FileSystem
 // interface before and after the request and compared with the statement of
 // the property; no status code is part of the oracle.
 
 type c46Case struct {
-	FS        string `json:"fs"`     // "mem" | "dir"
+	FS        string `json:"fs"`     // "mem" | "dir" (clean Dir string) | "dir-…" (the same directory spelled non-canonically, see c46DirSpell)
 	Method    string `json:"method"` // COPY | MOVE
 	Tree      string `json:"tree"`   // what /a is
 	Src       string `json:"request_target"`
@@ -44,13 +46,52 @@ const c46Host = "example.com"
 var (
 	c46Trees    = []string{"file", "empty-dir", "dir+file", "dir+subdir+file"}
 	c46DestsQ   = []string{"/a", "/a/", "/a/.", "/./a", "//a", "/a//", "/b/../a", "/a/../a", "/a/b", "/a/f", "/b", "/b/", "http://HOST/a/", "http://other.example/b", "/%61", "/a%2F", "rel:a", "/", "/b/c", "-"}
-	c46DestsT   = []string{"/a/./", "/./a/", "/a/b/..", "/a/b/../", "http://HOST/a", "http://HOST//a", "/%61/", "rel:a/", "rel:./a", "/a?q", "/a/#f", "/A", "/a/b/", "/a/b/../f", "/../a", "/b/."}
+	c46DestsT   = []string{"/a/./", "/./a/", "/a/b/..", "/a/b/../", "http://HOST/a", "http://HOST//a", "/%61/", "rel:a/", "rel:./a", "/a?q", "/a/#f", "/A", "/a/b/", "/a/b/../f", "/../a", "/b/.", "/.", "/b/..", "//"}
 	c46Locks    = []string{"none", "src+token", "root+token", "dst-locked"}
 	c46Depths   = []string{"", "0", "1", "infinity"}
 	c46Overs    = []string{"", "T", "F"}
 	c46Prefixes = []string{"", "/dav"}
 	c46Srcs     = []string{"/a", "/a/"}
+	// the file system behind the handler: NewMemFS, Dir(clean path of a fresh
+	// directory) and Dir(the same directory named by a string that is not in
+	// filepath.Clean form) — the Dir methods compare resolved (clean) names with
+	// the configured string, so each way a string can differ from its clean form
+	// is one value.
+	c46FSsQ = []string{"mem", "dir", "dir-trailing-slash", "dir-double-slash", "dir-dot-segment"}
+	c46FSsT = []string{"dir-dot-prefix", "dir-dotdot-segment", "dir-trailing-dot"}
 )
+
+// c46DirSpell returns the Dir string for the fresh directory base (a clean
+// absolute path) in the given spelling; every spelling names the same
+// directory.
+func c46DirSpell(kind, base string) string {
+	parent, leaf := filepath.Split(base) // parent ends in a separator
+	switch kind {
+	case "dir":
+		return base
+	case "dir-trailing-slash":
+		return base + "/"
+	case "dir-double-slash":
+		return parent + "/" + leaf
+	case "dir-dot-segment":
+		return parent + "./" + leaf
+	case "dir-trailing-dot":
+		return base + "/."
+	case "dir-dotdot-segment":
+		return base + "/../" + leaf
+	case "dir-dot-prefix":
+		wd, err := os.Getwd()
+		if err != nil {
+			panic(err)
+		}
+		rel, err := filepath.Rel(wd, base)
+		if err != nil {
+			panic(err)
+		}
+		return "./" + rel
+	}
+	panic("bad fs")
+}
 
 // c46Segs is the reference reading of a slash-separated path: the list of
 // segments after removing "", "." and resolving ".." (ignored at the root).
@@ -233,18 +274,25 @@ func c46Mkdir(fs FileSystem, name string) {
 
 func c46Check(w *vx.W, tmp string, x c46Case) {
 	var fs FileSystem
-	switch x.FS {
-	case "mem":
+	if x.FS == "mem" {
 		fs = NewMemFS()
-	case "dir":
+	} else {
+		// a fresh directory per case (and per re-execution), removed afterwards
 		base, err := os.MkdirTemp(filepath.Join(tmp, fmt.Sprint(vx.Hash64(x.Dest+x.Tree+x.Lock)%64)), "k")
 		if err != nil {
 			panic(err)
 		}
 		defer os.RemoveAll(base)
-		fs = Dir(base)
-	default:
-		panic("bad fs")
+		d := c46DirSpell(x.FS, base)
+		if x.FS != "dir" && d == filepath.Clean(d) {
+			panic("c46 fixture: Dir spelling " + d + " is in clean form")
+		}
+		if a, err := os.Stat(d); err != nil {
+			panic("c46 fixture: " + err.Error())
+		} else if b, _ := os.Stat(base); !os.SameFile(a, b) {
+			panic("c46 fixture: Dir spelling " + d + " does not name " + base)
+		}
+		fs = Dir(d)
 	}
 	// source tree
 	switch x.Tree {
@@ -392,15 +440,31 @@ func c46QuickDir(x c46Case) bool {
 	return true
 }
 
+// c46InTier says whether case x of the full product is run in the tier.
+func c46InTier(quick bool, x c46Case) bool {
+	switch {
+	case x.FS == "mem":
+		return true
+	case quick:
+		return c46QuickDir(x)
+	case x.FS == "dir":
+		return true
+	}
+	// thorough, Dir named by a non-canonical string
+	return x.Prefix == ""
+}
+
 func TestVerif_C46(t *testing.T) {
 	vx.Run(t, "C46", func(c *vx.Ctx) {
 		dests := append([]string{}, c46DestsQ...)
 		depths := c46Depths[:2]
+		fss := append([]string{}, c46FSsQ...)
 		if !c.Quick() {
 			dests = append(dests, c46DestsT...)
 			depths = c46Depths
+			fss = append(fss, c46FSsT...)
 		}
-		c.Rule(fmt.Sprintf("one COPY or MOVE request through Handler.ServeHTTP on a fresh tree: fs {NewMemFS, Dir(fresh dir)%s} x method x /a in %q x request target %q x Destination in %q (rel: = relative reference, HOST = the request host, - = no header; /b and /b/ additionally with /b absent|file|dir holding a file) x Overwrite %q x Depth %q x lock state %q (infinite-depth locks made directly on the LockSystem; tokens presented in an untagged If list; dst-locked = a foreign lock on the destination location) x Prefix %q. Oracle on the tree read back through the FileSystem interface before/after: COPY — every path at or under /a keeps its kind and content (paths at or under a destination strictly inside the source are exempt); MOVE — /a and everything under it is unchanged, or /a is gone and the destination subtree equals the old source subtree. non-trivial = request answered 201/204 or changed the tree", vx.Pick(c, " — quick tier: on Dir only without Prefix and Depth header, lock states none and src+token, and the 1000-directory self-copy cases only for the plain request", ""), c46Trees, c46Srcs, dests, c46Overs, depths, c46Locks, c46Prefixes))
+		c.Rule(fmt.Sprintf("one COPY or MOVE request through Handler.ServeHTTP on a fresh tree: file system %q (mem = NewMemFS; dir = Dir(clean absolute path of a fresh directory); dir-… = Dir(the same fresh directory named by a string that is not in filepath.Clean form: trailing separator, doubled separator inside, \".\" segment inside%s); a new directory per case under the test's temporary root, removed afterwards)%s x method x /a in %q x request target %q x Destination in %q (rel: = relative reference, HOST = the request host, - = no header; includes the root collection \"/\", an ancestor of the source; /b and /b/ additionally with /b absent|file|dir holding a file) x Overwrite %q x Depth %q x lock state %q (infinite-depth locks made directly on the LockSystem; tokens presented in an untagged If list; dst-locked = a foreign lock on the destination location) x Prefix %q. Oracle on the tree read back through the FileSystem interface before/after: COPY — every path at or under /a keeps its kind and content (paths at or under a destination strictly inside the source are exempt); MOVE — /a and everything under it is unchanged, or /a is gone and the destination subtree equals the old source subtree. non-trivial = request answered 201/204 or changed the tree", fss, vx.Pick(c, "", ", trailing \"/.\", \"..\" segment, relative with leading \"./\""), vx.Pick(c, " — quick tier: on every Dir spelling only without Prefix and Depth header, lock states none and src+token, and the 1000-directory self-copy cases only for the plain request", " — the non-canonical Dir spellings without Prefix (the prefix is stripped before the FileSystem is reached), everything else as the full product"), c46Trees, c46Srcs, dests, c46Overs, depths, c46Locks, c46Prefixes))
 		c.Assume("status codes, dead properties, lock bookkeeping and the fate of resources outside the source are not part of the oracle")
 		c.Assume("single requests on a quiescent server; no concurrent requests")
 		tmp := c45TempRoot(c.T)
@@ -422,9 +486,9 @@ func TestVerif_C46(t *testing.T) {
 										}
 										for _, st := range states {
 											for _, method := range []string{"COPY", "MOVE"} {
-												for _, fs := range []string{"mem", "dir"} {
+												for _, fs := range fss {
 													x := c46Case{fs, method, tree, src, dest, st, ow, depth, lock, prefix}
-													if fs == "dir" && c.Quick() && !c46QuickDir(x) {
+													if !c46InTier(c.Quick(), x) {
 														continue
 													}
 													if !yield(x) {
